@@ -1733,3 +1733,27 @@ def it_zip_longest(ex, st, args, kwargs, node):
         n = z3.If(s_.length() > n, s_.length(), n)
     return [(st, VSeq(length=n, kind='list',
                       elem=lambda i: VSeq([VOpt(i >= s_.length(), s_.elem(i)) for s_ in seqs], kind='tuple')))]
+
+
+# ---- os.path (string level; POSIX separators) ---------------------------------------------------------------------
+@extern('os.path.join')
+def os_path_join(ex, st, args, kwargs, node):
+    """join(a, b, ...) = a + '/' + b ... for relative, non-empty components and a not ending in '/'.
+    (a component starting with '/' would discard what precedes it: excluded by the stated assumption)"""
+    if any(isinstance(a, VOpaque) for a in args):
+        return [(st, VOpaque(name='path'))]
+    if not all(isinstance(a, VStr) for a in args):
+        raise Unsupported('os.path.join of non-strings')
+    t = args[0].t
+    for a in args[1:]:
+        t = z3.Concat(t, z3.StringVal('/'), a.t)
+    ex.used_stubs.add("os.path.join(a, b) = a + '/' + b (components relative and non-empty, POSIX separator)")
+    return [(st, VStr(t))]
+
+
+@extern('os.path.dirname')
+def os_path_dirname(ex, st, args, kwargs, node):
+    f = z3.Function('path_dirname', z3.StringSort(), z3.StringSort())
+    if isinstance(args[0], VOpaque):
+        return [(st, VOpaque(name='dirname'))]
+    return [(st, VStr(f(args[0].t)))]
